@@ -399,6 +399,18 @@ MUTATIONS += [
     dict(id="C14-sparse-decision-no-means-yes", prop="C14", file=RSF, old="                            SparseRestore::No => false,", new="                            SparseRestore::No => true,"),
 ]
 
+# ---- round 7
+MUTATIONS += [
+    dict(id="C11-new-fields-swapped", prop="C11", file=PA, old="            ignore_ctime,\n            ignore_inode,\n        }", new="            ignore_ctime: ignore_inode,\n            ignore_inode: ignore_ctime,\n        }"),
+    dict(id="C11-wiring-both-ctime", prop="C11", file="crates/core/src/commands/backup.rs", old="                self.ignore_ctime,\n                self.ignore_inode,\n            ),", new="                self.ignore_ctime,\n                self.ignore_ctime,\n            ),"),
+    dict(id="C02-filter-index-recover-ignored", prop="C02", file=PR, old="p.to_do != PackToDo::Keep && (instant_delete || p.to_do != PackToDo::KeepMarked)", new="p.to_do != PackToDo::Keep\n                        && p.to_do != PackToDo::Recover\n                        && (instant_delete || p.to_do != PackToDo::KeepMarked)"),
+    dict(id="C02-filter-index-only-instant", prop="C02", file=PR, old="p.to_do != PackToDo::Keep && (instant_delete || p.to_do != PackToDo::KeepMarked)", new="p.to_do != PackToDo::Keep && instant_delete"),
+    dict(id="C15-repair-index-dry-run-collects", prop="C15", file="crates/core/src/commands/repair/index.rs", old="            (true, true) => info!(\"would have modified index file {index_id}\"),\n            (true, false) => changed_index_files.push((index_id, new_index)),", new="            (true, _) => changed_index_files.push((index_id, new_index)),"),
+    dict(id="C15-repair-index-add-unguarded", prop="C15", file="crates/core/src/commands/repair/index.rs", old="                if !dry_run {\n                    // write pack file to index - without the delete mark\n                    indexer.write().unwrap().add_with(pack, false)?;\n                }", new="                indexer.write().unwrap().add_with(pack, false)?;"),
+    dict(id="C14-restore-coalesce-from-file", prop="C14", file=RSF, old="           && self.from_file.is_none() //", new="           && other.from_file.is_none() //"),
+    dict(id="C01-restore-coalesce-from-file", prop="C01", file=RSF, old="           && self.from_file.is_none() //", new="           && other.from_file.is_none() //"),
+]
+
 HARMLESS = [
     dict(id="H-C05-trees-symlink-continue", prop="C05", file=CK, old="        for node in tree.nodes {\n            match node.node_type {", new="        for node in tree.nodes {\n            if node.node_type == NodeType::Symlink {\n                continue;\n            }\n            match node.node_type {"),
     # independent statements reordered
